@@ -1910,6 +1910,9 @@ class _GroupElem(ABC):
             j_f = Normalize(coord[p2_f] - coord[p0_f])
 
             n_f = Normalize(np.cross(i_f, j_f, 1, 1))
+            # outward normals whatever the orientation of the element (e.g. a mirrored mesh)
+            inward_f = np.einsum("fi,fi->f", coord.mean(0) - coord[p0_f], n_f) > 0
+            n_f[inward_f] *= -1
 
             coordinates_n_i = coordinates_n[:, np.newaxis].repeat(Nface, 1)
 
